@@ -9,14 +9,14 @@
 (***************************************************************************)
 EXTENDS Integers, Sequences, FiniteSets, TLC
 
-CONSTANTS N, W, Procs, Origins, RelaxEmpty, Prefill
+CONSTANTS N, W, Procs, Origins, RelaxEmpty, Prefill, Mode
 
 VARIABLES head, tail, lock, buf, pc, reg, cands, pend
 
 rvars == <<head, tail, lock, buf>>
 vars  == <<head, tail, lock, buf, pc, reg, cands, pend>>
 
-LQ == INSTANCE LinQueue WITH LqThreads <- Procs, LqCap <- N, LqRelaxEmpty <- RelaxEmpty
+LQ == INSTANCE LinQueue WITH LqThreads <- Procs, LqCap <- N, LqRelaxEmpty <- RelaxEmpty, LqMode <- Mode
 
 Add(x, k)  == (x + k) % W
 Sub(x, y)  == (x - y + W) % W
@@ -132,5 +132,5 @@ InvLinearizable == cands # {}
 InvLockOwner == lock => (\E p \in Procs : pc[p] \in {"F2", "G2", "G3", "G4"})
 ActualQ == [i \in 1..Sub(tail, head) |-> buf[Idx(Add(head, i - 1))]]
 AllIdle == \A p \in Procs : pc[p] = "idle"
-InvContents == AllIdle => (ActualQ \in LQ!LqContents(cands))
+InvContents == AllIdle => LQ!LqAgrees(cands, ActualQ)
 =============================================================================
